@@ -234,6 +234,9 @@ class LocalAnomalyScore(BaseLocalAnomalyScore):
             Reference to self.
         """
         self._interval_cost.fit(X)
+        # Re-derive the cost used on the pooled surroundings from the cost's current
+        # hyper-parameters, which may have been changed since construction.
+        self._any_subset_cost = self.cost.clone()
         return self
 
     def _evaluate(self, cuts: np.ndarray) -> np.ndarray:
